@@ -50,7 +50,19 @@ def gen_scenario(seed, i):
             ops.append(["clock", rng.pick([10, 1000, 5000])])
     ops.append(["tick", 90_000_000])
     ops.append(["runall"])
-    sc = {"id": f"tm-{seed}-{i}", "config": {"keep": True}, "models": [w], "ops": ops}
+    cfg = {"keep": True}
+    if i % 4 == 3:
+        # the process waits in the store only: dropped from the cache (or the engine restarted) at quiescent points before ticks
+        restart = (i % 8 == 7)
+        if restart:
+            cfg["store"] = "sqlite"
+        out = []
+        for op in ops:
+            if op[0] == "tick" and out and out[-1][0] == "runall" and rng.chance(1, 2):
+                out.append(["restart"] if restart else ["evict", "p1"])
+            out.append(op)
+        ops = out
+    sc = {"id": f"tm-{seed}-{i}", "config": cfg, "models": [w], "ops": ops}
     return sc, {"timed_nid": "a1" if timed_kind == "act" else "s1", "rules": [[on, secs] for on, secs in picks], "tsteps": tsteps}
 
 
